@@ -68,8 +68,6 @@ def templates(tier, seed):
         for loc in ("c", "tl", "b"):
             for n in (1, 2):
                 tds.append(dict(fam="content", kind=k, loc=loc, mode="default", off="sym", dxy="none", vert=False, lines=n, carrier="content"))
-    if tier == "quick":
-        tds = sample_quota(tds, lambda t: (t["fam"], t["kind"]), {"place": 45, "multiline": 24, "content": 6}, seed)
     return tds
 
 
